@@ -1,5 +1,7 @@
 import CedarVerif.Lemmas.BatchedUids
 import CedarVerif.Lemmas.TpeViews
+import CedarVerif.Lemmas.TpeValidTotal
+import CedarVerif.Thm.C03
 /-
 C15 — batched (loader-driven) authorization equals ordinary authorization.  Property theorems only
 (helpers: Lemmas/Batched*.lean).  Model: Cedar/Batched.lean (`run budget loader`), on top of Cedar/Tpe.lean.
@@ -23,9 +25,15 @@ the ids of the request, of the typed conditions and of the attribute / tag value
 `SoundStates` no longer occur as hypotheses of the main theorems.
 The older `batched_decision_sound_partial` / `enough_budget` (under the abstract `SoundStates` / `LoopInv`) are kept: the
 new theorems instantiate them with the concrete invariant `SInv`.
+FROM VALIDATION (C03): `batched_decision_sound_valid` / `enough_budget_full_valid` replace `TypedSafe`, `TypedAgrees`,
+`CondsBool` and "`policy_residual_map` succeeds" by validation-level hypotheses — `SchemaWF2 s`, `ValidTyped s env tps` (static
+policies accepted by `checkPolicy .strict` in every environment, whose typed conditions are `Level.annotate`'s typed AST for
+`env`, erased — what `typed.into_expr()` hands to the model), `env` the unlinked environment of the request, `Conformant s q es`
+(C11 `ConformsRequest` / `StoreConforms`, C03 `ActionsPresent`) — via Lemmas/TpeValid*.lean (`Valid.annot_typeSafe`: C03's
+induction re-run over `annotate` with a per-node invariant; see the header of Thm/C14.lean).
 -/
 namespace Cedar.C15
-open Cedar Cedar.Tpe Cedar.Batched
+open Cedar Cedar.Tpe Cedar.Batched Cedar.Tpe.Valid
 
 /-- **budget_monotone** (full, for every loader whose rounds do not fail): enlarging the budget never changes a
 decision already obtained.  No soundness fact is needed: `interpret` returns `Concrete` / `Error` residuals unchanged,
@@ -266,5 +274,88 @@ example :
     simp only [tps, List.mem_singleton] at htp; subst htp
     have : evaluate q es [] cond = .ok (.prim (.bool true)) := by rfl
     rw [this] at hv; cases hv; exact ⟨true, rfl⟩
+
+/-! ### from VALIDATION-level hypotheses (C03), Lemmas/TpeValid*.lean -/
+
+/-- **batched_decision_sound_valid**: `batched_decision_sound` with `TypedSafe` / `TypedAgrees` DERIVED from C03's strict
+soundness: for strictly valid static policies typed for the environment of a conformant request (store conformant, action
+entities present), every decision `run b` returns — every budget, every faithful loader — is the ordinary decision. -/
+theorem batched_decision_sound_valid (s : Schema) (hWF : C03.SchemaWF2 s) (env : RequestEnv)
+    (loader : Loader) (q : Request) (es : Entities) (tps : List TPolicy)
+    (hF : Faithful loader es) (hV : ValidTyped s env tps) (hq : Conformant s q es) (he : EnvOf s env q)
+    (b : Nat) (d : Decision) (h : run b loader q tps = .ok d) :
+    d = (Cedar.isAuthorized q es (tps.map (·.policy))).decision :=
+  batched_decision_sound loader q es tps hF (valid_typedSafe hWF hV hq he) (valid_typedAgrees hWF hV hq he) b d h
+
+/-- **enough_budget_full_valid**: `enough_budget_full` with `TypedSafe`, `TypedAgrees`, `CondsBool` and the success of
+`policy_residual_map` DERIVED from validation: every budget above `|U|` yields the ordinary decision.  Remaining hypotheses:
+the loader (`Faithful`, `StepOk`, `Complete`) and `Universe U` (a checkable condition on the input). -/
+theorem enough_budget_full_valid (s : Schema) (hWF : C03.SchemaWF2 s) (env : RequestEnv)
+    (loader : Loader) (q : Request) (es : Entities) (tps : List TPolicy) (U : List EntityUID)
+    (hF : Faithful loader es) (hok : StepOk (prequestOf q) loader) (hl : Complete loader)
+    (hV : ValidTyped s env tps) (hq : Conformant s q es) (he : EnvOf s env q) (hU : Universe U q es tps)
+    (b : Nat) (hb : U.length < b) :
+    run b loader q tps = .ok (Cedar.isAuthorized q es (tps.map (·.policy))).decision := by
+  obtain ⟨st0, h0⟩ := valid_initState_some hV he.pslot he.rslot (prequestOf q)
+  exact enough_budget_full loader q es tps U hF hok hl (valid_typedSafe hWF hV hq he) (valid_typedAgrees hWF hV hq he)
+    (valid_condsBool hWF hV hq he) hU st0 h0 b hb
+
+/-- **batched_total_valid**: on validated static policies the batched evaluator never answers `TpeError` -/
+theorem batched_total_valid (s : Schema) (env : RequestEnv) (loader : Loader) (q : Request) (tps : List TPolicy)
+    (hV : ValidTyped s env tps) (hp : env.principalSlot = none) (hr : env.resourceSlot = none) (b : Nat) :
+    run b loader q tps ≠ .tpeError := by
+  obtain ⟨st0, h0⟩ := valid_initState_some hV hp hr (prequestOf q)
+  unfold run
+  simp only [h0, runFrom]
+  cases loop (prequestOf q) loader b st0 with
+  | none => simp
+  | some st1 => simp only; cases st1.decision (prequestOf q) <;> simp
+
+/-- non-vacuity of the `…_valid` theorems: C03's example schema and world; a permit whose typed AST is the condition itself
+and a forbid `resource in principal && context.level < 5` whose left operand is typed `False`, so that the typechecker hands
+back `resource in principal` ALONE (the typed condition differs from the condition): all validation-level hypotheses hold,
+and `Universe` for the ids of the request. -/
+example :
+    let c1 : Expr := .and (.binaryApp .mem (.var .resource) (.var .principal)) (.binaryApp .less (.getAttr (.var .context) "level") (.lit (.int 5)))
+    let tps : List TPolicy := [⟨⟨"p0", .permit, C03.ex2Static, []⟩, C03.ex2Static⟩,
+                               ⟨⟨"p1", .forbid, c1, []⟩, .binaryApp .mem (.var .resource) (.var .principal)⟩]
+    let env : RequestEnv := ⟨"User", ⟨"Action", "view"⟩, "Group", C03.ex2View.context, none, none⟩
+    C03.SchemaWF2 C03.ex2Schema ∧ ValidTyped C03.ex2Schema env tps ∧ EnvOf C03.ex2Schema env C03.ex2World.q ∧
+    Conformant C03.ex2Schema C03.ex2World.q C03.ex2World.es ∧ Faithful (storeLoader C03.ex2World.es) C03.ex2World.es ∧
+    Universe [⟨"User", "alice"⟩, ⟨"Action", "view"⟩, ⟨"Group", "admins"⟩] C03.ex2World.q C03.ex2World.es tps ∧
+    run 1 (storeLoader C03.ex2World.es) C03.ex2World.q tps = .ok (Cedar.isAuthorized C03.ex2World.q C03.ex2World.es (tps.map (·.policy))).decision := by
+  intro c1 tps env
+  have hV : ValidTyped C03.ex2Schema env tps := by
+    refine ⟨?_, ?_⟩
+    · intro tp htp
+      simp only [tps, List.mem_cons, List.not_mem_nil, or_false] at htp
+      rcases htp with rfl | rfl
+      · exact ⟨rfl, fun _ => rfl, ⟨_, rfl, rfl⟩⟩
+      · exact ⟨rfl, fun _ => rfl, ⟨_, rfl, rfl⟩⟩
+    · intro tp htp
+      simp only [tps, List.mem_cons, List.not_mem_nil, or_false] at htp
+      rcases htp with rfl | rfl
+      · exact ⟨_, rfl, rfl⟩
+      · exact ⟨_, rfl, rfl⟩
+  refine ⟨C03.ex2_schemaWF, hV, ⟨⟨rfl, rfl, rfl, C03.ex2View, rfl, rfl⟩, rfl, rfl⟩,
+    ⟨C03.ex2_request, C03.ex2_store, C03.ex2_actions⟩, storeLoader_faithful _, ?_, by decide +kernel⟩
+  refine ⟨⟨?_, by decide, ?_, ?_⟩, ?_, ?_⟩
+  · intro u hu; cases hu; decide
+  · intro u hu; cases hu; decide
+  · intro c hc; cases hc; intro x hx; simp [C03.ex2World, valueUidsKVs, valueUids] at hx
+  · intro u d hf
+    have hm := C03.entities_find?_mem hf
+    simp only [C03.ex2World, List.mem_cons, Prod.mk.injEq, List.not_mem_nil, or_false] at hm
+    rcases hm with ⟨rfl, rfl⟩ | ⟨rfl, rfl⟩ | ⟨rfl, rfl⟩ | ⟨rfl, rfl⟩ <;>
+      exact ⟨fun x hx => by simp [valueUidsKVs, valueUids] at hx, fun x hx => by simp [valueUidsKVs, valueUids] at hx⟩
+  · intro tp htp r0 h0
+    simp only [tps, List.mem_cons, List.not_mem_nil, or_false] at htp
+    rcases htp with rfl | rfl
+    · have h1 : (Residual.ofExpr C03.ex2Static).map (·.uids) = some [] := by rfl
+      simp only [h0, Option.map_some, Option.some.injEq] at h1
+      exact uidsIn_nil h1
+    · have h1 : (Residual.ofExpr (.binaryApp .mem (.var .resource) (.var .principal))).map (·.uids) = some [] := by rfl
+      simp only [h0, Option.map_some, Option.some.injEq] at h1
+      exact uidsIn_nil h1
 
 end Cedar.C15
